@@ -351,8 +351,15 @@ class Pool():
                         return False
 
             def handle_new_result(worker, result):
-                self._pending -= 1
-                self._pending_per_worker[worker.id].pop(0)
+                if worker.id in self._closed:
+                    # a result which was still in the pipe when the death of its worker was handled (e.g. while enqueueing);
+                    # the input behind it is not accounted as pending anymore and, when retrying, it has been re-scheduled
+                    if self._retry:
+                        logger.debug('Ignoring a late result from {}, its input has been re-scheduled', worker)
+                        return
+                else:
+                    self._pending -= 1
+                    self._pending_per_worker[worker.id].pop(0)
                 logger.debug('New result received from {}, total pending: {}, for this worker: {}', worker, self._pending, len(self._pending_per_worker[wid]))
                 if worker_callback:
                     worker_callback(worker, 'finished', result)
